@@ -346,6 +346,7 @@ class Engine:
         self._callcache = {}
         self._closure_cache = {}
         self.statics = {}
+        self.fn_stack = []
         self.depth = 0
         self.max_depth = 400
         self.trace = None
@@ -388,7 +389,7 @@ class Engine:
                             src = None
                         break
                 if src is not None:
-                    mm = re.match(r'\s*(?:unsafe\s+)?impl(?:<[^>]*>)?\s+(?:(.+?)\s+for\s+)?([A-Za-z0-9_:<>, \'&\[\]()]+?)\s*(?:where.*)?\{?\s*$', src)
+                    mm = re.match(r'\s*(?:unsafe\s+)?impl(?:<[^>]*>)?\s+(?:(.+?)\s+for\s+)?([A-Za-z0-9_:<>, \'&\[\]();]+?)\s*(?:where.*)?\{?\s*$', src)
                     if mm:
                         trait, ty = mm.group(1), mm.group(2).strip()
                         ty_short = re.sub(r'<.*>', '', ty).split('::')[-1]
@@ -465,6 +466,8 @@ class Engine:
     def variant_index(self, v):
         if isinstance(v.variant, int):
             return v.variant
+        if v.ty.split('::')[-1] == 'Ordering' and v.variant in ('Less', 'Equal', 'Greater'):
+            return {'Less': -1, 'Equal': 0, 'Greater': 1}[v.variant]       # std::cmp::Ordering has explicit discriminants
         e = self.enum_lookup(v.ty.split('::'), v.variant)
         if e is None or v.variant not in e[1]:
             raise Unsupported('unknown enum layout %s::%s' % (v.ty, v.variant))
@@ -750,12 +753,14 @@ class Engine:
         if not f.compiled:
             compile_function(f)
         self.cg_stack.append(cg or [])
+        self.fn_stack.append(f.name)
         if f.name not in self.encoded:
             self.encoded[f.name] = f.nlines
         self.depth += 1
         if self.depth > self.max_depth:
             self.depth -= 1
             self.cg_stack.pop()
+            self.fn_stack.pop()
             raise PathEnd('bound', 'call depth bound in ' + f.name)
         try:
             return self._run(f, args)
@@ -769,6 +774,7 @@ class Engine:
         finally:
             self.depth -= 1
             self.cg_stack.pop()
+            self.fn_stack.pop()
 
     def _run(self, f, args):
         fr = [None] * f.nlocals
@@ -1059,7 +1065,8 @@ class Engine:
         if k == 'discr':
             v = self.load(fr, r[1])
             if isinstance(v, Enum):
-                return mkint(self.variant_index(v), 'isize')
+                t_ = ty if ty in INT_TYPES else 'isize'
+                return mkint(self.variant_index(v) & ((1 << INT_TYPES[t_][0]) - 1), t_)
             raise Unsupported('discriminant of %r' % (v,))
         if k == 'cast':
             return self.cast(self.operand(f, fr, r[1]), r[2], r[3], fr)
@@ -1381,8 +1388,9 @@ class Engine:
                 return self.choose(conds)
             if isinstance(v, Int) and v.signed and c >= (1 << (v.w - 1)):
                 c -= (1 << v.w)
+            raw = c & ((1 << v.w) - 1) if isinstance(v, Int) else c
             for kk, bb in cases:
-                if kk == c:
+                if kk == c or kk == raw:        # switch targets are printed as raw bit patterns (255 for -1_i8)
                     return bb
             if otherwise is None:
                 raise PathEnd('panic', 'switchInt without matching target in ' + f.name)
@@ -1483,10 +1491,18 @@ class Engine:
             dm = re.match(r"^<dyn (\w+)(<.*?>)?( \+ .*)? as (\w+)(<.*>)?>::(\w+)$", callee)
             if dm and args:
                 return self.dyn_call(dm.group(4), dm.group(6), args, fr, dty)
+            fm = re.match(r"^<.+ as (?:std::ops::|core::ops::)?(Fn|FnMut|FnOnce)<.*>>::(call|call_mut|call_once)$", callee)
+            if fm and args:
+                cm = re.match(r'^<(\{closure@[^}]*\}) as ', callee)
+                if cm and self.deref(args[0], fr) is None:
+                    # a capture-less closure is a zero-sized value that MIR never assigns
+                    creator = self.fn_stack[-1] if self.fn_stack else None
+                    return self.call_closure(Closure(cm.group(1), [], creator), list(args[1].fields) if isinstance(args[1], Struct) else [args[1]])
+                return self.dyn_call(fm.group(1), fm.group(2), args, fr, dty)
             gm = re.match(r"^<([A-Z][0-9]?) as ([\w:]+?)(<.*>)?>::(\w+)(::<.*>)?$", callee)
             if gm and args:
                 # a trait method on a generic type parameter: dispatch on the runtime type of the receiver
-                return self.dyn_call(gm.group(2).split('::')[-1], gm.group(4), args, fr, dty)
+                return self.dyn_call(gm.group(2), gm.group(4), args, fr, dty)
             ctor = self.ctor_call(callee, args)
             if ctor is not None:
                 return ctor
@@ -1543,6 +1559,8 @@ class Engine:
         return None
 
     def dyn_call(self, trait, method, args, fr, dty):
+        trait_full = trait
+        trait = trait.split('::')[-1]
         if trait in ('Fn', 'FnMut', 'FnOnce') and method in ('call', 'call_mut', 'call_once'):
             fv = self.deref(args[0], fr)
             while isinstance(fv, Cell):
@@ -1558,7 +1576,7 @@ class Engine:
                 return hook(self, trait, method, args, fr)
             raise Unsupported('dynamic dispatch on %r' % (args[0],))
         key = '<%s as %s>::%s' % (tn, trait, method)
-        name = self.find_impl(None, trait, method, args[0], fr)
+        name = self.find_impl(None, trait_full, method, args[0], fr)
         if name is None:
             name = self.alias.get(key)
         if name is None:
@@ -1582,6 +1600,8 @@ class Engine:
             return self.do_call(fv.name, args, fr, dty)
         if isinstance(fv, Struct) and not fv.fields and self.resolve(fv.ty) is not None:
             return self.do_call(fv.ty, args, fr, dty)          # a fn item printed as a zero-sized constant
+        if isinstance(fv, Enum) and not fv.fields and args:
+            return Enum(fv.ty, fv.variant, list(args))         # a tuple-variant constructor used as a function value
         hook = self.env.get('call_value')
         if hook is not None:
             return hook(self, fv, args, fr)
